@@ -50,6 +50,10 @@ def queryTag (w : W) (i : Id) (t : String) : Option Nat := (w.iro i).findSome? f
 /-- `getTaggedValueTags()` (a set; as a list with repetitions) -/
 def tagNames (w : W) (i : Id) : List String := (w.iro i).flatMap fun j => (w.tags j).map (·.1)
 
+/-- `I.setTaggedValue(tag, value)` on an existing interface: its direct table only — tagged values are not memoised and nobody is notified,
+so every descendant must see the new tag through its `__iro__` at once -/
+def setTag (w : W) (i : Id) (t : String) (v : Nat) : W := { w with tags := upd w.tags i (set (w.tags i) t v) }
+
 /-- every invariant of every interface in `__iro__`, in order -/
 def allInvs (w : W) (i : Id) : List (Nat × Bool) := (w.iro i).flatMap w.invs
 /-- `validateInvariants(obj)`: the first failure is raised -/
